@@ -547,3 +547,13 @@ for _pid, _extra in (('C16', 'C16'), ('C11', 'C11')):
         nontrivial=(lambda q: (lambda inp, o: (o != 'rejected') if inp.startswith('cfgmap ') else q['nontrivial'](inp, o)))(_p),
         rule=_p['rule'] + ' || builder settings -> core configuration: 400 (thorough 5000) tracers built through the real Builder with random, pairwise distinct values for all 23 settings; channel / strategy / state configuration read back (hooks, snapshot before and after clear, getters); oracle: every field equals the setting',
     )
+
+
+# ---- C01: the byte-level half of "what the network actually did": the own-response lines of mode recv carry a C01 oracle
+_c01 = PROPS['C01']
+PROPS['C01'] = dict(
+    _c01, modes=_c01['modes'] + [('hcore', 'recv')],
+    compare=lambda inp, a, b: compare_recv(inp, a, b) if is_recv_line(inp) else _c01['compare'](inp, a, b),
+    nontrivial=lambda inp, o: (' acc=' in o) if is_recv_line(inp) else _c01['nontrivial'](inp, o),
+    rule=_c01['rule'] + ' || byte level: the own-response lines of mode recv (a genuine response that is not decoded, rejected or matched to another sequence would leave the probe Awaited / complete the wrong one)',
+)
